@@ -143,7 +143,7 @@ theorem hasOverlap_spec (x y : Location) (hx : WF x) (hy : WF y) (ms fs : Bool)
     have hk := key (strandGate (.single ba sa) (.single bb sb) ms) (overlapKernel ba bb)
       (by rw [kernel_cov]; simp only [covX_single])
     rw [← hk]
-    simp only [hasOverlap, strandGate, strandEq, locationStrand?, ok_bind]
+    simp only [hasOverlap, strandGate, strandEq, locationStrand?]
     first | exact gate_if _ _ _ _ | (simp only [gate_if]) 
   | .single ba sa, .empty, _, _, hq =>
     have hms : ms = false := by
@@ -165,7 +165,7 @@ theorem hasOverlap_spec (x y : Location) (hx : WF x) (hy : WF y) (ms fs : Bool)
         (by rw [any_kernel_cov]; simp only [covX_single, covX_compound_false]
             constructor <;> rintro ⟨p, h1, h2⟩ <;> exact ⟨p, h2, h1⟩)
       rw [← hk]
-      simp only [hasOverlap, strandGate, strandEq, locationStrand?, ok_bind]
+      simp only [hasOverlap, strandGate, strandEq, locationStrand?]
       first | exact gate_if _ _ _ _ | (simp only [gate_if]) 
     | true =>
       have hk := key (strandGate (.single ba sa) (.compound lb) ms) (overlapKernel (f.1, maxEnd lb.blocks) ba)
@@ -193,7 +193,7 @@ theorem hasOverlap_spec (x y : Location) (hx : WF x) (hy : WF y) (ms fs : Bool)
       have hk := key (strandGate (.compound la) (.single bb sb) ms) (la.blocks.any (fun ba => overlapKernel ba bb))
         (by rw [any_kernel_cov]; simp only [covX_single, covX_compound_false])
       rw [← hk]
-      simp only [hasOverlap, strandGate, strandEq, locationStrand?, ok_bind]
+      simp only [hasOverlap, strandGate, strandEq, locationStrand?]
       first | exact gate_if _ _ _ _ | (simp only [gate_if]) 
     | true =>
       have hk := key (strandGate (.compound la) (.single bb sb) ms) (overlapKernel (f.1, maxEnd la.blocks) bb)
@@ -210,7 +210,7 @@ theorem hasOverlap_spec (x y : Location) (hx : WF x) (hy : WF y) (ms fs : Bool)
         (la.blocks.any (fun ba => lb.blocks.any (fun bb => overlapKernel bb ba)))
         (by rw [any_any_kernel_cov]; simp only [covX_compound_false])
       rw [← hk]
-      simp only [hasOverlap, strandGate, strandEq, locationStrand?, ok_bind]
+      simp only [hasOverlap, strandGate, strandEq, locationStrand?]
       first | exact gate_if _ _ _ _ | (simp only [gate_if]) 
     | true =>
       have hk := key (strandGate (.compound la) (.compound lb) ms)
